@@ -4,6 +4,7 @@ import Gofasta.Driver.C16
 import Gofasta.Driver.C06
 import Gofasta.Driver.C10
 import Gofasta.Driver.Var
+import Gofasta.Driver.Sam
 namespace Gofasta.Driver
 
 def dispatch (c : Case) : Verdict :=
@@ -16,6 +17,8 @@ def dispatch (c : Case) : Verdict :=
   | "C10" => runC10 c
   | "VAR" => runVar c
   | "REL" => runRel c
+  | "TOMA" => runToma c
+  | "TOPA" => runTopa c
   | _ => { agree := false, spec := "na", model := "unknown-property" }
 
 end Gofasta.Driver
